@@ -1,5 +1,5 @@
 import Hive.Proofs.StreamInPlace
-import Hive.Gen.C02_Facts
+import Hive.Gen.C01c_Facts
 import Hive.Spec.DeserFacts
 /-!
 # C01 (stream part) — each stream Write*/Read* helper pair round-trips through any io.Reader
@@ -171,10 +171,10 @@ example : (runW [.coll .u16 (.bws .u8) [[1, 2], [], [3]], .ows .u64 [9, 9], .num
 
 /-! ### regenerated facts: the bodies of the writers, `ByteBuffer.Write` / `Seek` and the seek helpers
 
-`Hive/Gen/C02_Facts.lean` is rewritten from the Go source on every run (harness/c02/facts); the normalised bodies
+`Hive/Gen/C01c_Facts.lean` is rewritten from the Go source on every run (harness/c02/facts); the normalised bodies
 must equal the copies the model was transcribed from (`Hive/Spec/DeserFacts.lean`). -/
 section Facts
-open Hive.Gen.C02Facts
+open Hive.Gen.C01cFacts
 
 theorem C01_facts_body_writeFixedSize : body_writeFixedSize = Hive.Spec.DeserFacts.body_writeFixedSize := rfl
 
